@@ -24,8 +24,8 @@ Boundary == { 0, 8, 9, 10, 12, 13, 32, 40, 41, 92, 127, 128, 160, 255, 256, 2047
               2573, 3338, 10280, 10281, 10332, 23592, 23644, 23645,    \* UTF-16 bytes 0A0D 0D0A 2828 2829 285C 5C28 5C5C 5C5D
               55295, 57344, 57345, 63743, 65279, 65533, 65534, 65535,  \* D7FF E000 E001 F8FF FEFF FFFD FFFE FFFF
               65536, 65537, 66559, 66560, 128512, 1048575, 1048576, 1113088, 1114110, 1114111 }
-E2E == << 40, 92, 233, 2573, 10281, 55295, 57344, 65535, 65536, 1114111,       \* the first 10: quick tier strings
-           65, 41, 256, 2047, 2048, 23644, 57345, 65533, 128512 >>
+E2E == << 40, 92, 233, 2573, 10281, 55295, 57344, 65535, 65536, 1114111, 127, 133,   \* the first 12: quick tier strings
+           65, 41, 256, 2047, 2048, 23644, 57345, 65533, 128512, 128, 159, 160, 173, 8232 >> \* ... C1 controls, NBSP, SHY, LS
 E2ESet == {E2E[i] : i \in DOMAIN E2E}
 
 LCG(x) == (x * 75 + 74) % 65537
@@ -37,8 +37,16 @@ RECURSIVE RandStr(_, _)
 RandStr(x, n) == IF n = 0 THEN <<>> ELSE <<E2E[(x % Len(E2E)) + 1]>> \o RandStr(LCG(x), n - 1)
 RandCase(k) == LET x0 == LCG(((Seed % 65537) * 104729 + k * 7919) % 65537) IN RandStr(LCG(x0), MaxLen + 1 + (x0 % 4))
 
-AllVias == <<"property", "keyword", "bookmark">>
-Plain(cps, e2e) == [cps |-> cps, pre |-> 0, post |-> 0, fill |-> 120, vias |-> (IF e2e THEN AllVias ELSE <<>>), unit |-> TRUE, tag |-> ""]
+AllVias == <<"property", "keyword", "bookmark", "bookmarkjson">>
+WS == {9, 10, 11, 12, 13, 32, 133, 160, 5760, 8232, 8233, 8239, 8287, 12288} \cup (8192..8202)
+(* carriers that keep a text verbatim by design: keywords are split at , ; CR and trimmed, bookmark titles (read by api.Bookmarks resp.
+   api.ExportBookmarksJSON) drop the bytes below 32 *)
+ViasFor(full, all) ==
+  SelectSeq(AllVias, LAMBDA v :
+     CASE v = "property" -> \E i \in 1..Len(full) : full[i] \notin WS      \* the API refuses blank values (nothing is stored)
+       [] v = "keyword"  -> all /\ (\A i \in 1..Len(full) : full[i] \notin {44, 59, 13}) /\ full[1] \notin WS /\ full[Len(full)] \notin WS
+       [] v \in {"bookmark", "bookmarkjson"} -> all /\ (\A i \in 1..Len(full) : full[i] >= 32))
+Plain(cps, e2e) == [cps |-> cps, pre |-> 0, post |-> 0, fill |-> 120, vias |-> (IF e2e THEN ViasFor(cps, TRUE) ELSE <<>>), unit |-> TRUE, tag |-> ""]
 
 (* ---- syntax-spelling texts ---- *)
 KW == << [n |-> "endobj",    b |-> <<101, 110, 100, 111, 98, 106>>],
@@ -69,13 +77,6 @@ Spell(b, f, coding) == CASE coding = "u16a0" -> Units(Even(b \o <<f>>))
                          [] coding = "u16a1" -> Units(Even(<<78>> \o b \o <<f>>))
                          [] coding = "ascii" -> b \o <<f>>
 Rep(n) == [i \in 1..n |-> Fill]
-WS == {9, 10, 11, 12, 13, 32, 133, 160, 5760, 8232, 8233, 8239, 8287, 12288} \cup (8192..8202)
-(* carriers that keep a text verbatim by design: keywords are split at , ; CR and trimmed, bookmark titles drop control bytes *)
-ViasFor(full, all) ==
-  SelectSeq(AllVias, LAMBDA v :
-     CASE v = "property" -> TRUE
-       [] v = "keyword"  -> all /\ (\A i \in 1..Len(full) : full[i] \notin {44, 59, 13}) /\ full[1] \notin WS /\ full[Len(full)] \notin WS
-       [] v = "bookmark" -> all /\ (\A i \in 1..Len(full) : full[i] >= 32))
 LenClasses == <<[n |-> "short", k |-> 4], [n |-> "1k", k |-> 600], [n |-> "4k", k |-> 2100]>>
 PosSplit(pos, k) == CASE pos = "start" -> <<0, k>> [] pos = "mid" -> <<k \div 2, k - (k \div 2)>> [] pos = "end" -> <<k, 0>>
 F2(f) == IF f < 16 THEN "0" \o ToString(f) ELSE ToString(f)
